@@ -101,7 +101,8 @@ def run_case(rep, rng, ci, dev, cfg, model_records):
                                  include_screening=cfg["screening"], screening_tolerance=1e-2,
                                  current_units=cfg["current_units"], terminal_psi=cfg["terminal_psi"])
         try:
-            runs.traced_solve(dev, opts, A=A, currents=currents, on_step=on_step, before_step=before)
+            _, solver_ = runs.traced_solve(dev, opts, A=A, currents=currents, on_step=on_step, before_step=before)
+            runs.report_threading(rep, solver_, {"run": "C01 plan"})
         except ValueError as e:
             if "sum of all terminal currents" not in str(e):
                 raise
